@@ -164,16 +164,6 @@ def scenario(versions: list[dict[str, str]], store_flags: list[str], n_workers: 
                 rng.shuffle(subsets)
                 for sset in subsets[:60]:
                     plans.append({"kind": "fail", "role": role, "set": sset})
-        if fail_mode == "singles":
-            # the cheapest multi-fault class that single faults cannot reach: one data write plus one meta/meta_ex
-            # write of ANOTHER record failing in the same run (new meta next to an old data file, and vice versa)
-            for role, lst in sorted(by_role.items()):
-                datas = [e for e in lst if e["op"] == "write" and e["rec"] == "data"]
-                metas = [e for e in lst if e["op"] == "write" and e["rec"] in ("meta", "meta_ex")]
-                pairs = [(a, b) for a in datas for b in metas if (a["name"] or "").split(".")[0] != (b["name"] or "").split(".")[0]]
-                rng.shuffle(pairs)
-                for a, b in pairs[:12]:
-                    plans.append({"kind": "fail", "role": role, "set": sorted([a["n"], b["n"]]), "pair": "data+" + b["rec"]})
         if len(plans) > max_points:
             # stratified: first and last instance of every (role, kind, op, record kind, when) class, then random fill
             def cls(p: dict[str, Any]) -> tuple[Any, ...]:
@@ -190,6 +180,18 @@ def scenario(versions: list[dict[str, str]], store_flags: list[str], n_workers: 
             rest = [p_ for p_ in plans if p_ not in chosen]
             rng.shuffle(rest)
             plans = (chosen + rest)[:max(max_points, len(chosen))] if len(chosen) <= max_points * 2 else chosen[: max_points * 2]
+        pair_plans: list[dict[str, Any]] = []
+        if fail_mode == "singles":
+            # the cheapest multi-fault class that single faults cannot reach: one data write plus one meta/meta_ex
+            # write of ANOTHER record failing in the same run (new meta next to an old data file, and vice versa)
+            for role, lst in sorted(by_role.items()):
+                datas = [e for e in lst if e["op"] == "write" and e["rec"] == "data"]
+                metas = [e for e in lst if e["op"] == "write" and e["rec"] in ("meta", "meta_ex")]
+                pairs = [(a, b) for a in datas for b in metas if (a["name"] or "").split(".")[0] != (b["name"] or "").split(".")[0]]
+                rng.shuffle(pairs)
+                for a, b in pairs[:24]:
+                    pair_plans.append({"kind": "fail", "role": role, "set": sorted([a["n"], b["n"]]), "pair": "data+" + b["rec"]})
+        plans = plans + pair_plans
         res["n_plans"] = len(plans)
         # --- execute ------------------------------------------------------------------------------------
         for plan in plans:
